@@ -1,1 +1,194 @@
+//! FakeWatcher: a recording, fault-injecting `notify::Watcher`, installed through the fs
+//! source's `cfg(watchexec_verif)` factory seam. It behaves like notify's backends where
+//! that is observable (re-watching a path replaces its mode, unwatching an unknown path
+//! is `WatchNotFound`), lets the harness act *inside* a watch/unwatch call, and keeps
+//! the real event callback so notify events / errors can be delivered through the real
+//! `process_event`.
 
+use std::{
+	cell::RefCell,
+	collections::{BTreeMap, BTreeSet},
+	path::{Path, PathBuf},
+	sync::{Arc, Mutex},
+};
+
+use notify::{Config, EventHandler, RecursiveMode, WatcherKind};
+use watchexec::sources::fs::Watcher as Kind;
+
+pub struct WatcherSt {
+	pub idx: usize,
+	pub kind: String,
+	pub alive: bool,
+	/// path -> recursive?
+	pub reg: BTreeMap<PathBuf, bool>,
+}
+
+#[derive(Clone, Debug, PartialEq, Eq)]
+pub enum Call {
+	Create { idx: usize, kind: String },
+	Watch { idx: usize, path: PathBuf, recursive: bool, ok: bool },
+	Unwatch { idx: usize, path: PathBuf, ok: bool },
+	Drop { idx: usize },
+}
+
+#[derive(Default)]
+pub struct World {
+	pub calls: Vec<(u64, Call)>,
+	pub watchers: Vec<WatcherSt>,
+	pub handlers: Vec<Arc<Mutex<Box<dyn EventHandler>>>>,
+	/// watch(p) fails while p is in this set
+	pub fail_watch: BTreeSet<PathBuf>,
+	pub fail_unwatch: BTreeSet<PathBuf>,
+}
+
+thread_local! {
+	static WORLD: RefCell<World> = RefCell::new(World::default());
+	/// called at the start of every watch / unwatch (before the call takes effect)
+	static CALL_HOOK: RefCell<Option<Box<dyn FnMut(&str, &Path)>>> = const { RefCell::new(None) };
+}
+
+pub fn with<R>(f: impl FnOnce(&mut World) -> R) -> R {
+	WORLD.with(|w| f(&mut w.borrow_mut()))
+}
+
+pub fn set_call_hook(h: Option<Box<dyn FnMut(&str, &Path)>>) {
+	CALL_HOOK.with(|c| *c.borrow_mut() = h);
+}
+
+fn call_hook(what: &str, p: &Path) {
+	// take the hook out while it runs: it may re-enter the fs configuration
+	let h = CALL_HOOK.with(|c| c.borrow_mut().take());
+	if let Some(mut h) = h {
+		h(what, p);
+		CALL_HOOK.with(|c| {
+			let mut c = c.borrow_mut();
+			if c.is_none() {
+				*c = Some(h);
+			}
+		});
+	}
+}
+
+fn kind_str(k: Kind) -> String {
+	match k {
+		Kind::Native => "native".into(),
+		Kind::Poll(d) => format!("poll({}ms)", d.as_millis()),
+		_ => "other".into(),
+	}
+}
+
+pub fn install() {
+	with(|w| *w = World::default());
+	watchexec::verif::set_watcher_factory(Some(Box::new(|kind, handler| {
+		let idx = with(|w| {
+			let idx = w.watchers.len();
+			w.watchers.push(WatcherSt { idx, kind: kind_str(kind), alive: true, reg: BTreeMap::new() });
+			w.handlers.push(Arc::new(Mutex::new(handler)));
+			w.calls.push((dex::rt::now(), Call::Create { idx, kind: kind_str(kind) }));
+			idx
+		});
+		Box::new(Fake { idx })
+	})));
+}
+
+pub fn uninstall() {
+	watchexec::verif::set_watcher_factory(None);
+	set_call_hook(None);
+	with(|w| *w = World::default());
+}
+
+/// Deliver a notify event or error through the callback the fs worker registered with
+/// watcher `idx` (i.e. through the real `process_event`).
+pub fn emit(idx: usize, ev: notify::Result<notify::Event>) {
+	let h = with(|w| w.handlers.get(idx).cloned());
+	if let Some(h) = h {
+		h.lock().unwrap().handle_event(ev);
+	}
+}
+
+/// The live watcher, if exactly one is live.
+pub fn live() -> Vec<usize> {
+	with(|w| w.watchers.iter().filter(|s| s.alive).map(|s| s.idx).collect())
+}
+
+#[derive(Debug)]
+pub struct Fake {
+	idx: usize,
+}
+
+impl notify::Watcher for Fake {
+	fn new<F: EventHandler>(_: F, _: Config) -> notify::Result<Self> {
+		Err(notify::Error::generic("FakeWatcher is created through the verif factory"))
+	}
+
+	fn watch(&mut self, path: &Path, mode: RecursiveMode) -> notify::Result<()> {
+		call_hook("watch", path);
+		let recursive = matches!(mode, RecursiveMode::Recursive);
+		let idx = self.idx;
+		let fail = with(|w| w.fail_watch.contains(path));
+		with(|w| {
+			w.calls.push((dex::rt::now(), Call::Watch { idx, path: path.to_path_buf(), recursive, ok: !fail }));
+			if !fail {
+				w.watchers[idx].reg.insert(path.to_path_buf(), recursive);
+			}
+		});
+		if fail {
+			Err(notify::Error::path_not_found())
+		} else {
+			Ok(())
+		}
+	}
+
+	fn unwatch(&mut self, path: &Path) -> notify::Result<()> {
+		call_hook("unwatch", path);
+		let idx = self.idx;
+		let (fail, held) = with(|w| (w.fail_unwatch.contains(path), w.watchers[idx].reg.contains_key(path)));
+		let ok = !fail && held;
+		with(|w| {
+			w.calls.push((dex::rt::now(), Call::Unwatch { idx, path: path.to_path_buf(), ok }));
+			if ok {
+				w.watchers[idx].reg.remove(path);
+			}
+		});
+		if fail {
+			Err(notify::Error::generic("sim: unwatch failed"))
+		} else if !held {
+			Err(notify::Error::watch_not_found())
+		} else {
+			Ok(())
+		}
+	}
+
+	fn kind() -> WatcherKind {
+		WatcherKind::NullWatcher
+	}
+}
+
+impl Drop for Fake {
+	fn drop(&mut self) {
+		let idx = self.idx;
+		// the world may already be gone when the runtime is torn down
+		let _ = WORLD.try_with(|w| {
+			if let Ok(mut w) = w.try_borrow_mut() {
+				if let Some(s) = w.watchers.get_mut(idx) {
+					s.alive = false;
+					s.reg.clear();
+				}
+				let t = dex::rt::now();
+				w.calls.push((t, Call::Drop { idx }));
+			}
+		});
+	}
+}
+
+pub fn render(c: &(u64, Call)) -> String {
+	let (t, c) = c;
+	match c {
+		Call::Create { idx, kind } => format!("t{t} watcher#{idx} create {kind}"),
+		Call::Watch { idx, path, recursive, ok } => {
+			format!("t{t} watcher#{idx} watch {} {}{}", path.display(), if *recursive { "rec" } else { "nonrec" }, if *ok { "" } else { " !err" })
+		}
+		Call::Unwatch { idx, path, ok } => format!("t{t} watcher#{idx} unwatch {}{}", path.display(), if *ok { "" } else { " !err" }),
+		Call::Drop { idx } => format!("t{t} watcher#{idx} drop"),
+	}
+}
